@@ -209,6 +209,8 @@ def run_jobs(jobs, nproc=None, job_timeout=None):
                 continue
             progressed = True
             pc.close()
+            if os.environ.get("VERIF_PROGRESS"):
+                print("[job %s: %.1fs%s, %d running, %d queued]" % (j.name, time.time() - t0, " CRASHED" if r.get("crashed") else "", len(running) - 1, len(queue)), file=sys.stderr, flush=True)
             for sp in r.pop("spawn", []) or []:
                 queue.append(Job(sp[0], sp[1], *sp[2], **(sp[3] if len(sp) > 3 else {})))
             out.append(r)
